@@ -2079,10 +2079,30 @@ def write_if_changed(path, content):
     return True
 
 
+def load_extensions():
+    """gen/ext_*.py: each defines ARTEFACTS = [(file name under Gen/, artefact id, generator function)] and may import this
+    module's helpers (`import extract as X`)"""
+    import glob
+    import importlib.util
+    here = os.path.dirname(os.path.abspath(__file__))
+    sys.modules.setdefault("extract", sys.modules[__name__])
+    extra = []
+    for path in sorted(glob.glob(os.path.join(here, "ext_*.py"))):
+        name = os.path.splitext(os.path.basename(path))[0]
+        try:
+            spec = importlib.util.spec_from_file_location(name, path)
+            mod = importlib.util.module_from_spec(spec)
+            spec.loader.exec_module(mod)
+            extra += list(mod.ARTEFACTS)
+        except Exception as ex:
+            extra.append((name + ".broken", "EXT-" + name, (lambda ex=ex, name=name: (_ for _ in ()).throw(TranslationBroken("EXT-" + name, f"extension failed to load: {ex!r}")))))
+    return extra
+
+
 def main():
     os.makedirs(OUT, exist_ok=True)
     status = {"ok": [], "broken": [], "changed": []}
-    for fname, art, fn in ARTEFACTS:
+    for fname, art, fn in ARTEFACTS + load_extensions():
         try:
             content = fn()
             if write_if_changed(os.path.join(OUT, fname), content):
